@@ -8,6 +8,8 @@ import (
 	"crypto/sha1"
 	"encoding/json"
 	"flag"
+	"go/token"
+	"go/types"
 	"fmt"
 	"os"
 	"path/filepath"
@@ -17,6 +19,8 @@ import (
 	"strings"
 	"sync"
 	"time"
+
+	"golang.org/x/tools/go/ssa"
 )
 
 type KnownFinding struct {
@@ -268,10 +272,83 @@ func cmdCheck(args []string) int {
 	for _, l := range lines {
 		fmt.Println(l)
 	}
+	var uncovered []string
+	if prop == "C04" && *only == "" {
+		uncovered = uncoveredExports(p, results)
+		for _, u := range uncovered {
+			fmt.Fprintf(os.Stderr, "UNCOVERED-EXPORT %s: exported function not driven by any C04 job\n", u)
+		}
+		if len(uncovered) > 0 && exit == 0 {
+			exit = 2
+		}
+		// isolation: any store to a package-level variable outside init
+		for _, r := range results {
+			for _, g := range r.GlobalStores {
+				fmt.Fprintf(os.Stderr, "FOOTPRINT job %s: store to package-level variable %s\n", r.Spec.String(), g)
+			}
+		}
+	}
+	extraEvidence = map[string]interface{}{"exported_functions_not_entered": uncovered}
 	writeEvidence(prop, *tier, seed, def, results, validated, confirmed, mismatch, inconclusive, knownHit, time.Since(t0).Seconds())
 	fmt.Fprintf(os.Stderr, "check %s tier=%s: jobs=%d violations=%d known=%d validated_traces=%d mismatches=%d inconclusive=%d wall=%.1fs exit=%d\n",
 		prop, *tier, len(jobs), confirmed, len(knownHit), validated, mismatch, inconclusive, time.Since(t0).Seconds(), exit)
 	return exit
+}
+
+var extraEvidence map[string]interface{}
+
+// uncoveredExports lists exported functions / methods of sipsp that no job entered.
+func uncoveredExports(p *Program, results []*JobResult) []string {
+	entered := map[string]bool{}
+	for _, r := range results {
+		for f := range r.Funcs {
+			entered[f] = true
+		}
+	}
+	var out []string
+	check := func(fn *ssa.Function) {
+		if fn == nil || fn.Blocks == nil || fn.Synthetic != "" {
+			return
+		}
+		if !token.IsExported(fn.Name()) || strings.HasPrefix(fn.Name(), "H_") {
+			return
+		}
+		switch fn.Name() {
+		case "DBG", "DBGon", "WARN", "ERR", "BUG":
+			return // logging: stubbed (2.5), not part of any claim
+		}
+		if pos := p.Prog.Fset.Position(fn.Pos()); strings.Contains(pos.Filename, "zz_verif_") || strings.HasSuffix(pos.Filename, "_test.go") {
+			return
+		}
+		if !entered[fn.String()] {
+			out = append(out, fn.String())
+		}
+	}
+	for _, m := range p.Pkg.Members {
+		switch x := m.(type) {
+		case *ssa.Function:
+			check(x)
+		case *ssa.Type:
+			if !token.IsExported(x.Name()) {
+				continue
+			}
+			for _, T := range []types.Type{x.Type(), types.NewPointer(x.Type())} {
+				ms := p.Prog.MethodSets.MethodSet(T)
+				for i := 0; i < ms.Len(); i++ {
+					check(p.Prog.MethodValue(ms.At(i)))
+				}
+			}
+		}
+	}
+	sort.Strings(out)
+	// de-duplicate (value / pointer receiver wrappers)
+	var ded []string
+	for i, o := range out {
+		if i == 0 || out[i-1] != o {
+			ded = append(ded, o)
+		}
+	}
+	return ded
 }
 
 func firstLine(s string) string {
@@ -366,6 +443,11 @@ func writeEvidence(prop, tier string, seed int, def CheckDef, results []*JobResu
 			"rule": "states = merged symbolic states scheduled by the SSA executor (each stands for every input satisfying its path condition); transitions = CFG edges taken; every assertion site and implicit run-time check is an obligation discharged by the SMT solver (unsat = holds for all inputs in the bound) or decided on the exact per-byte value sets of the path condition",
 		},
 		"assumptions": def.Assume,
+	}
+	for k, v := range extraEvidence {
+		if v != nil {
+			ev["coverage"].(map[string]interface{})[k] = v
+		}
 	}
 	b, _ := json.MarshalIndent(ev, "", " ")
 	os.MkdirAll(filepath.Join(verifDir(), "evidence"), 0o755)
